@@ -110,7 +110,7 @@ Print Assumptions C19_negative_number_refuted.
     storage normalisation *)
 Theorem C19_load_value : forall (fl : float_ops) (itx : Z -> Z -> Z -> str), float_text_ok fl ->
   forall (ty : dtype) (nullable : bool) (v : sqlvalue) (r : str) (ts rest : list tok),
-  value_ok fl ty nullable v = true -> val_stop r -> lexes r ts ->
+  value_ok ty nullable v = true -> val_stop r -> lexes r ts ->
   lexes (sql_value_to_literal fl itx v ++ r) (value_toks fl v ++ ts)
   /\ exists pv cv, parse_value fl (value_toks fl v ++ rest) = OOk (pv, rest)
                    /\ coerce_value fl pv ty = OOk cv /\ normalize_value cv ty = OOk v.
@@ -120,7 +120,7 @@ Print Assumptions C19_load_value.
 (** ** THE ROUND TRIP: loading the dump of a database of the vocabulary gives that database *)
 Theorem C19_dump_roundtrip : forall (fl : float_ops) (itx : Z -> Z -> Z -> str), float_text_ok fl ->
   forall (g : str) (db : list table),
-  generated_ok g = true -> db_ok fl db = true ->
+  generated_ok g = true -> db_ok db = true ->
   load_sql_dump fl (dump_text fl itx g db) = OOk db.
 Proof. exact dump_roundtrip_thm. Qed.
 Print Assumptions C19_dump_roundtrip.
@@ -152,7 +152,7 @@ Print Assumptions C19_numeric_whole_refuted.
 (** the former CHAR counter-example reloads as itself since the storage layer counts characters *)
 Theorem C19_char_padded_non_ascii_roundtrip : forall (fl : float_ops) (itx : Z -> Z -> Z -> str),
   let db := one_table [col "A" (TChar 4) true] [[VCharacter [233; 32; 32; 32]]] in
-  db_ok fl db = true /\ load_sql_dump fl (dump_text fl itx (lit "x") db) = OOk db.
+  db_ok db = true /\ load_sql_dump fl (dump_text fl itx (lit "x") db) = OOk db.
 Proof. exact char_padded_non_ascii_roundtrip_thm. Qed.
 Print Assumptions C19_char_padded_non_ascii_roundtrip.
 
